@@ -9,6 +9,8 @@ import (
 	"os"
 	"runtime"
 	"strings"
+	"syscall"
+	"time"
 
 	"github.com/rs/zerolog"
 
@@ -57,7 +59,38 @@ func (o Outcome) String() string {
 }
 
 // Guard runs f and classifies panics.
-func Guard(f func() (string, error)) (res Outcome) {
+func Guard(f func() (string, error)) Outcome {
+	res := guardOnce(f)
+	if res.Kind != OK && fdPressure() {
+		// the repository never closes the files it includes; a long-lived worker depends on finalizers to get the
+		// descriptors back. A failure while the table is nearly full says nothing about the input: collect and repeat.
+		relieveFDs()
+		res = guardOnce(f)
+	}
+	return res
+}
+
+// fdPressure: more than half of the descriptor limit is in use (or the table cannot even be read).
+func fdPressure() bool {
+	var lim syscall.Rlimit
+	if syscall.Getrlimit(syscall.RLIMIT_NOFILE, &lim) != nil {
+		return false
+	}
+	es, err := os.ReadDir("/proc/self/fd")
+	return err != nil || uint64(len(es)) > lim.Cur/2
+}
+
+func relieveFDs() {
+	for i := 0; i < 20; i++ {
+		runtime.GC()
+		time.Sleep(2 * time.Millisecond) // finalizers run on their own goroutine
+		if !fdPressure() {
+			return
+		}
+	}
+}
+
+func guardOnce(f func() (string, error)) (res Outcome) {
 	defer func() {
 		if x := recover(); x != nil {
 			switch v := x.(type) {
